@@ -109,6 +109,9 @@ NewLine(d, dspec, r, rspec) ==
           /\ S' = OpNewLine(S, d, dpin, r, rpin)
           /\ Did(<<"NewLine", S.nd[d].idx, dspec, S.nd[r].idx, rspec>>)
 RemoveLine(l) == S' = OpRemoveLine(S, l) /\ Did(<<"RemoveLine", S.ln[l].idx>>)
+\* remove() called once more on the handle of a line that was removed before: nothing is left to detach, the circuit
+\* does not change (whatever line has moved into the old index meanwhile)
+RemoveAgain == S' = S /\ Did(<<"RemoveAgain">>)
 RemoveNode(n) == /\ ~Attached(n) /\ n \notin IoSet
                  /\ S' = OpRemoveNode(S, n) /\ Did(<<"RemoveNode", S.nd[n].idx>>)
 AppendIo(n) == /\ n \notin IoSet /\ S' = [S EXCEPT !.io = Append(@, n)] /\ Did(<<"AppendIo", S.nd[n].idx>>)
